@@ -164,7 +164,7 @@ static void ro_fin(ro_ctx_t *c)
 static int ro_is_failure(const char *name, long long r)
 {
     static const char *neg[] = { "sb", "st", "sv", "so", "sS", "su", "tv", "tov", "tS", "rs", "jp", "jr", 0 };   /* int: 0 ok, else failure */
-    static const char *zero[] = { "ss", "ta", "to", "xv", "xo", "aS", "xu", "uf", "es", "et", "ev", "eo", "eS", "eu", "eb", "cb", "cs", "cS", "cv", "emb", "cln", 0 };
+    static const char *zero[] = { "ss", "ta", "to", "xv", "xo", "aS", "xu", "uf", "es", "et", "ev", "eo", "eS", "eu", "cu", "eb", "cb", "cs", "cS", "cv", "emb", "cln", 0 };
     int k;
     if (!strcmp(name, "pj")) return r < 0 || r >= 1000000;   /* init failed / printer error code set */
     for (k = 0; neg[k]; ++k) if (!strcmp(name, neg[k])) return r != 0;
@@ -263,6 +263,13 @@ static int ro_op(ro_ctx_t *c, size_t i, char *tok)
         q = flatcc_builder_extend_union_vector(B, cnt);
         if (q) for (k = 0; k < cnt; ++k) q[k] = u[k];
         r = q != 0;
+    }
+    else if (IS("cu")) {
+        /* cu:<type>,<ref>;...  flatcc_builder_create_union_vector from an array of union refs */
+        char *sx = A(1); size_t cnt = 0; static flatcc_builder_union_ref_t u[1024]; flatcc_builder_union_vec_ref_t uv;
+        if (!(sx[0] == '-' && sx[1] == 0)) { char *t = sx; while (cnt < 1024) { char *e = strchr(t, ';'); char *cm; if (e) *e = 0; cm = strchr(t, ','); *cm = 0; u[cnt].type = (flatcc_builder_utype_t)atoi(t); u[cnt].value = (flatcc_builder_ref_t)ro_ref(c, cm + 1); ++cnt; if (!e) break; t = e + 1; } }
+        uv = flatcc_builder_create_union_vector(B, u, cnt);
+        r = (uv.value && uv.type) ? uv.value : 0; c->res2[i] = uv.type;
     }
     else if (IS("eu")) { flatcc_builder_union_vec_ref_t uv = flatcc_builder_end_union_vector(B); r = (uv.value && uv.type) ? uv.value : 0; c->res2[i] = uv.type; }
     else if (IS("emb")) { n = hx_decode(A(2), &d); r = flatcc_builder_embed_buffer(B, (uint16_t)atoi(A(1)), d, n, (uint16_t)atoi(A(3)), (flatcc_builder_buffer_flags_t)atoi(A(4))); }
